@@ -445,101 +445,6 @@ func genC03(r *rand.Rand, tier string, in *input) {
 	}
 }
 
-// ---- C01 / C02: failover under faults --------------------------------------------------
-
-func genC01(r *rand.Rand, tier string, in *input, c02 bool) {
-	switch r.IntN(6) {
-	case 0:
-		in.Voters, in.Quorum = 5, 3
-	case 1:
-		in.Voters, in.Quorum = 5, 4
-	case 2:
-		in.Voters, in.Quorum = 3, 3
-	case 3:
-		in.Voters, in.Quorum = 4, 3
-	}
-	if r.IntN(3) == 0 {
-		in.Store = "pebble"
-	}
-	in.Retained = 2 + r.IntN(3)
-	if c02 && r.IntN(2) == 0 {
-		in.PageBytes = 110 + r.IntN(250)
-	}
-	p := newPlanner(r, in)
-	p.keys = vh.Pick(r, 1, 1, 2, 0)
-	p.sa = 0
-	first := auth{1, 1, 1}
-	leader := p.node()
-	p.add(p.installOp(leader, first))
-	p.noteInstall(leader, first)
-	n := opBudget(r, tier, 6, 26)
-	maxDown := in.Voters - in.Quorum
-	for k := 0; k < n; k++ {
-		x := r.IntN(100)
-		ndown := len(p.down)
-		switch {
-		case x < 40: // commit, possibly with some followers unreachable / responses lost
-			op := p.commitOp(p.leader, p.cur, p.newCmd())
-			switch r.IntN(6) {
-			case 0:
-				op.Drop = p.faultNodes(1+r.IntN(maxInt(1, maxDown)), p.leader)
-			case 1:
-				op.Lose = p.faultNodes(1, p.leader)
-			}
-			p.add(op)
-		case x < 48 && len(p.cmds) > 0: // retry
-			p.add(p.commitOp(p.leader, p.cur, p.cmds[r.IntN(len(p.cmds))]))
-		case x < 60: // take a node down (at most N-Q at a time)
-			if ndown < maxDown {
-				node := p.node()
-				if !p.down[node] {
-					p.down[node] = true
-					p.add(opIn{K: "down", Node: node})
-				}
-			}
-		case x < 70: // bring one back
-			for node := uint64(1); node <= uint64(in.Voters); node++ {
-				if p.down[node] {
-					delete(p.down, node)
-					p.add(opIn{K: "up", Node: node})
-					break
-				}
-			}
-		case x < 88: // failover: install the next authority on an up node
-			a := p.bump(p.max)
-			node := p.node()
-			for tries := 0; p.down[node] && tries < 8; tries++ {
-				node = p.node()
-			}
-			if p.down[node] {
-				continue
-			}
-			if r.IntN(4) == 0 {
-				node = p.leader
-			}
-			op := p.installOp(node, a)
-			if c02 && r.IntN(5) == 0 {
-				rb := r.IntN(2)
-				op.RB = &rb
-			}
-			if r.IntN(8) == 0 {
-				op.Drop = p.faultNodes(1, node)
-			}
-			p.add(opIn{K: "restart", Node: node})
-			p.add(op)
-			p.noteInstall(node, a)
-		case x < 92 && c02: // follower gap repair by exact replays
-			f := p.otherNode(p.leader)
-			from := uint64(1 + r.IntN(4))
-			p.add(opIn{K: "repair", Node: p.leader, Peer: f, From: from, Thru: from + uint64(r.IntN(4))})
-		case x < 96 && c02: // standalone checkpoint of a watermark
-			p.add(opIn{K: "checkpoint", Node: p.leader, HW: uint64(1 + r.IntN(6))})
-		default:
-			p.add(opIn{K: "restart", Node: p.node()})
-		}
-	}
-}
-
 func maxInt(a, b int) int {
 	if a > b {
 		return a
